@@ -38,9 +38,11 @@
 (*            plus its filter pat / m / h / q / s as FilterP; quota = [id, kind,  *)
 (*            pat, m, h, q, s]                                                    *)
 (*   QMax, QW, QKind : [quota id -> ...],  LimQ : [Limiter key -> quota id]       *)
+(*   GenStatus : [GenerateResponse key -> status],  SetH : [TransformAPICall key  *)
+(*   -> <<side, header name, value>>] (a "set" rule on a request / response header) *)
 EXTENDS FlowGraphP
 
-CONSTANTS Cfg, QIds, QKind, QMax, QW, LimQ, GenStatus, TxIds
+CONSTANTS Cfg, QIds, QKind, QMax, QW, LimQ, GenStatus, SetH, TxIds
 
 VARIABLES now,
           lo, hi, charged, admitted, fwlast,        \* FixedWindowP (fixed-window quotas)
@@ -104,8 +106,62 @@ Exposed(seq, q) ==
     LET I == {i \in 1..Len(seq) : IsLim(seq[i]) /\ LimQ[seq[i].key] = q}
     IN IF I = {} THEN "any" ELSE LimVerdict(seq[CHOOSE i \in I : \A j \in I : i <= j])
 
-\* ------------------------------------------------------------------ the answer (C07: the first early response wins)
+\* ------------------------------------------------------------------ the answer (S4 = C07)
+A == INSTANCE ActionsP
+
 ReqGens(seq) == SelectSeq(seq, LAMBDA e : e.sid = "" /\ e.dir = "req" /\ KindAny(Cfg, e.key) = "Gen")
 AnsweredEarly(seq) == Len(ReqGens(seq)) > 0
 ExpectedStatus(seq) == IF AnsweredEarly(seq) THEN GenStatus[ReqGens(seq)[1].key] ELSE 0
+GenHeaders == {<<"Content-Type", "text/plain">>}
+
+IsSet(key, side) == key \in DOMAIN SetH /\ SetH[key][1] = side
+SetPair(key) == <<SetH[key][2], SetH[key][3]>>
+
+RECURSIVE FlatActs(_)
+FlatActs(seq) == IF seq = <<>> THEN <<>> ELSE Head(seq).acts \o FlatActs(Tail(seq))
+
+\* What the i-th processor execution of transaction e may hand back, from its configuration alone.
+\*   GenerateResponse on the request side: one early response with the configured status / body / content type
+\*   TransformAPICall "set header" on its own side: one modification carrying the configured pair; its other header edits restate
+\*     the message as it was (the transaction's own headers and what earlier set rules of this transaction wrote)
+\*   every other processor (Filter, Limiter, UserDefinedMetrics, the quota's system processors, a processor running on the side it
+\*     does nothing on): nothing, or no-ops
+\* G5 (observation): on the response walk of an EARLY response the set rules of response-side processors do not apply - the
+\*     processor runs but hands back a no-op (there is no response message yet); by C07 the early response goes out unchanged anyway.
+ProcActsOK(e, i) ==
+    LET s == e.seq[i]
+        as == s.acts
+        mine == {SetPair(e.seq[j].key) : j \in {k \in 1..(i - 1) : e.seq[k].sid = "" /\ e.seq[k].dir = s.dir /\ e.seq[k].key \in DOMAIN SetH}}
+        own == SetOf(e.x.hdr) \cup mine
+        AllNoop == \A j \in 1..Len(as) : as[j].k = "noop"
+    IN
+    IF s.sid # "" THEN AllNoop
+    ELSE IF KindAny(Cfg, s.key) = "Gen" /\ s.dir = "req"
+         THEN Len(as) = 1 /\ as[1].k = "early" /\ as[1].st = GenStatus[s.key] /\ as[1].b = s.key /\ A!Pairs(as[1].h) = GenHeaders
+    ELSE IF IsSet(s.key, "req") /\ s.dir = "req"
+         THEN Len(as) = 1 /\ as[1].k \in {"modreq", "modh"} /\ SetPair(s.key) \in A!Pairs(as[1].h)
+              /\ A!Pairs(as[1].h) \ {SetPair(s.key)} \subseteq own
+    ELSE IF IsSet(s.key, "res") /\ s.dir = "res" /\ e.dir = "res"
+         THEN Len(as) = 1 /\ as[1].k = "modresp" /\ as[1].st = e.x.status /\ SetPair(s.key) \in A!Pairs(as[1].h)
+              /\ A!Pairs(as[1].h) \ {SetPair(s.key)} \subseteq own
+    ELSE IF IsSet(s.key, "res") /\ s.dir = "res"                                     \* G5
+         THEN Len(as) <= 1 /\ \A j \in 1..Len(as) : as[j].k \in {"noop", "modresp"}
+    ELSE AllNoop
+
+\* the answer a user of the configuration relies on, from the configuration and the executed processors alone:
+\* an answered request carries the first answering processor's status and body; otherwise every header written by a set rule
+\* that ran carries the value of the LAST rule that ran for it (request side: towards the provider, response side: towards the client)
+LastSet(seq, d, name) ==
+    LET I == {i \in 1..Len(seq) : seq[i].sid = "" /\ seq[i].dir = d /\ IsSet(seq[i].key, d) /\ SetH[seq[i].key][2] = name}
+    IN IF I = {} THEN "" ELSE SetH[seq[CHOOSE i \in I : \A j \in I : j <= i].key][3]
+SetNames(seq, d) == {SetH[seq[i].key][2] : i \in {j \in 1..Len(seq) : seq[j].sid = "" /\ seq[j].dir = d /\ IsSet(seq[j].key, d)}}
+
+ReqAnswerOK(e) ==
+    IF AnsweredEarly(e.seq)
+    THEN e.out.early /\ e.out.st = ExpectedStatus(e.seq) /\ e.out.body = ReqGens(e.seq)[1].key /\ A!Pairs(e.out.rh) = GenHeaders
+    ELSE ~e.out.early /\ \A n \in SetNames(e.seq, "req") : <<n, LastSet(e.seq, "req", n)>> \in A!Pairs(e.out.qh)
+ResAnswerOK(e) ==
+    /\ ~e.out.early /\ ~e.out.retry
+    /\ \A n \in SetNames(e.seq, "res") : <<n, LastSet(e.seq, "res", n)>> \in A!Pairs(e.out.rh)
+    /\ SetNames(e.seq, "res") # {} => e.out.st = e.x.status
 ================================================================================
